@@ -79,6 +79,22 @@ def ngPlmnOp : Handler
     | _, _ => badOp
   | _ => badOp
 
+/-- `ngplmn2 <imsi> <mncLen> <imsi2> <mncLen2>`: as `ngplmn`, with the SUCI of another subscriber (any PLMN) encoded between NG
+    Setup and the later messages. `EncodeSuci` returns a fresh value: the announced PLMN is unaffected (unless the call traps). -/
+def ngPlmn2Op : Handler
+  | [imsi, mncLen, imsi2, mncLen2] =>
+    match hexArg imsi, intArg mncLen, hexArg imsi2, intArg mncLen2 with
+    | some imsi, some mncLen, some imsi2, some mncLen2 =>
+      let m := match Model.Suci.ngSetupFields imsi mncLen with
+        | .ok f =>
+          match Model.Suci.encodeSuci imsi2 mncLen2 with
+          | .ok _ => "ok " ++ toHex f.globalGnb ++ " " ++ toHex f.broadcast ++ " " ++ toHex f.uliNrCgi ++ " " ++ toHex f.uliTai
+          | .error e => e.tag
+        | .error e => e.tag
+      (m, match Model.Suci.encodeSuci imsi2 mncLen2 with | .ok _ => plmnSpec imsi mncLen 4 | .error _ => "undef")
+    | _, _, _, _ => badOp
+  | _ => badOp
+
 /-- `ngsetup <imsi> <mnc>`: ManageNGSetup passes `len(mnc)` -/
 def ngSetupOp : Handler
   | [imsi, mnc] =>
@@ -98,6 +114,7 @@ def suciHandlers : List (String × Handler) := [
   ("suci", suciOp),
   ("nassuci", nasSuciOp),
   ("ngplmn", ngPlmnOp),
+  ("ngplmn2", ngPlmn2Op),
   ("ngsetup", ngSetupOp)
 ]
 
